@@ -125,6 +125,121 @@ func genWorkload(t *rapid.T, first bool) *workload {
 	return w
 }
 
+// reputOps marks the operations that store an object whose earlier write was acknowledged (pre-stored or written by
+// an earlier operation) – whether or not it was deleted in between (delete+put is one of the wanted histories).
+func reputOps(w *workload) map[int]bool {
+	acked := map[int]bool{}
+	for _, i := range w.pre {
+		acked[i] = true
+	}
+	r := map[int]bool{}
+	for k, op := range w.spec.FlatOps() {
+		if op.Kind == fshelper.OpDelete {
+			continue
+		}
+		for _, i := range op.Objs {
+			if acked[i] {
+				r[k] = true
+			}
+		}
+		for _, i := range op.Objs {
+			acked[i] = true
+		}
+	}
+	return r
+}
+
+// genReput builds workloads around re-puts of acknowledged objects: 3-5 pre-stored objects (always one above the
+// combined threshold = single-file writer, one below = combined writer), and 3-6 operations drawn from: put of a
+// pre-stored big object, put of a pre-stored small object, batch containing pre-stored objects, delete followed by
+// put of the same object, put of a new object twice.
+func genReput(t *rapid.T, first bool) *workload {
+	w := &workload{}
+	s := &w.spec
+	s.Depth = rapid.IntRange(0, 2).Draw(t, "depth")
+	s.Generic = rapid.IntRange(0, 3).Draw(t, "writer") == 0
+	if first {
+		s.Generic = false // the O_TMPFILE+linkat writer is the one with an explicit "already exists" path
+	}
+	s.CntLim = rapid.SampledFrom([]int{1, 3, 128}).Draw(t, "cntLim")
+	s.Thr = rapid.SampledFrom([]int{400, 2048, 128 << 10, 128 << 10}).Draw(t, "thr")
+	s.SizeLim = rapid.SampledFrom([]int{300, 1500, 8 << 20}).Draw(t, "sizeLim")
+	s.NoSync = rapid.IntRange(0, 3).Draw(t, "noSync") == 0
+	s.IntervalUs = 300
+	s.WatchdogMs = 10000
+	s.OpMarks = true
+	seed := rapid.Uint64().Draw(t, "seed")
+	big := func(i int) fsobj.Spec {
+		return fsobj.Spec{Idx: i, Seed: seed, Cnr: i % 2, Payload: s.Thr + rapid.IntRange(1, 4000).Draw(t, "bigExtra")}
+	}
+	small := func(i int) fsobj.Spec {
+		return fsobj.Spec{Idx: i, Seed: seed, Cnr: i % 2, Payload: rapid.IntRange(0, 250).Draw(t, "smallPayload")}
+	}
+	// objects 0,1: big; 2,3,4: small; 5: big, 6,7: small (5-7 not pre-stored)
+	for i := 0; i < 8; i++ {
+		if i < 2 || i == 5 {
+			s.Objects = append(s.Objects, big(i))
+		} else {
+			s.Objects = append(s.Objects, small(i))
+		}
+	}
+	w.pre = []int{0, 2}
+	for _, i := range []int{1, 3, 4} {
+		if rapid.Bool().Draw(t, "preMore") {
+			w.pre = append(w.pre, i)
+		}
+	}
+	sort.Ints(w.pre)
+	preBig, preSmall := []int{}, []int{}
+	for _, i := range w.pre {
+		if i < 2 {
+			preBig = append(preBig, i)
+		} else {
+			preSmall = append(preSmall, i)
+		}
+	}
+	var ops []fshelper.Op
+	put := func(i int) { ops = append(ops, fshelper.Op{Kind: fshelper.OpPut, Objs: []int{i}}) }
+	// the two re-put paths are always there, in drawn order with drawn company
+	kinds := append([]string{"reputBig", "reputSmall"}, rapid.SliceOfN(rapid.SampledFrom([]string{"reputBig", "reputSmall", "batch", "deletePut", "putTwice"}), 1, 4).Draw(t, "moreOps")...)
+	kinds = permute(kinds, rapid.Permutation(seq(len(kinds))).Draw(t, "opOrder"))
+	for _, k := range kinds {
+		switch k {
+		case "reputBig":
+			put(rapid.SampledFrom(preBig).Draw(t, "big"))
+		case "reputSmall":
+			put(rapid.SampledFrom(preSmall).Draw(t, "small"))
+		case "batch":
+			n := rapid.IntRange(1, 5).Draw(t, "n")
+			kind := fshelper.OpBatch
+			m := append([]int(nil), rapid.Permutation(seq(8)).Draw(t, "members")[:n]...)
+			if rapid.IntRange(0, 3).Draw(t, "mapOrder") == 0 {
+				kind = fshelper.OpBatchMap
+				sort.Ints(m)
+			}
+			ops = append(ops, fshelper.Op{Kind: kind, Objs: m})
+		case "deletePut":
+			i := rapid.SampledFrom(w.pre).Draw(t, "victim")
+			ops = append(ops, fshelper.Op{Kind: fshelper.OpDelete, Objs: []int{i}})
+			put(i)
+		case "putTwice":
+			i := rapid.IntRange(5, 7).Draw(t, "fresh")
+			put(i)
+			put(i)
+		}
+	}
+	s.Phases = []fshelper.Phase{{Workers: [][]fshelper.Op{ops}}}
+	return w
+}
+
+func permute(a []string, p []int) []string {
+	r := make([]string, len(a))
+	for i, j := range p {
+		r[i] = a[j]
+	}
+	return r
+}
+
 func seq(n int) []int {
 	r := make([]int, n)
 	for i := range r {
@@ -153,6 +268,7 @@ type outcome struct {
 	err      error // *fshelper.Violation or harness error
 	harness  bool
 	note     string
+	killOp   int // operation (index) inside whose markers the kill landed, -1 = between operations
 }
 
 var crashSyscalls = []string{"openat", "write", "writev", "linkat", "renameat", "renameat2", "fsync", "fdatasync", "close", "unlinkat", "mkdirat"}
@@ -219,20 +335,27 @@ func mustHave(w *workload, rr *fshelper.Results) map[int]string {
 	return mh
 }
 
-func TestC12CrashPoints(t *testing.T) {
-	rec := ev.New("C12", "crashpoints")
+func TestC12CrashPoints(t *testing.T) { crashTest(t, "crashpoints", genWorkload, 1) }
+
+// TestC12Reput enumerates crash points of workloads that store ALREADY ACKNOWLEDGED objects again (single-file path,
+// combined path, batches, delete+put, put twice): a crash anywhere inside such a re-put must not lose or damage the
+// copy whose earlier write had returned success.
+func TestC12Reput(t *testing.T) { crashTest(t, "reput", genReput, 0.6) }
+
+func crashTest(t *testing.T, name string, gen func(*rapid.T, bool) *workload, budgetShare float64) {
+	rec := ev.New("C12", name)
 	defer rec.Flush()
 	if err := sysinject.Available(); err != nil {
 		ev.Inconclusive("C12 needs strace with ptrace permission: %v", err)
 	}
 	allExhaustive := true
 	var totalInst, totalHit int
-	budget := fshelper.NewBudget(45*time.Second, 1)
+	budget := fshelper.NewBudget(45*time.Second, budgetShare)
 	cases := 0
 	harnessErrs, runsTotal := 0, 0
 	lastHarnessErr := ""
 	rapid.Check(t, func(t *rapid.T) {
-		w := genWorkload(t, cases == 0)
+		w := gen(t, cases == 0)
 		order := rapid.Uint64().Draw(t, "pointOrder")
 		if cases > 0 && budget.Exceeded() {
 			// the time budget of this run is used up: later workloads are not enumerated (reported, not a verdict)
@@ -314,6 +437,36 @@ func TestC12CrashPoints(t *testing.T) {
 				other[e.Name][e.Tid]++
 			}
 		}
+		// operation windows of the dry run (op markers) and which operations store an already acknowledged object again
+		reput := reputOps(w)
+		ptOp := map[point]int{} // main-thread point -> index of the operation it belongs to
+		{
+			cur := -1
+			cnt := map[string]int{}
+			for k, v := range pre {
+				cnt[k] = v
+			}
+			for i := startIdx + 1; i < endIdx; i++ {
+				e := dry.Events[i]
+				if mk, ok := e.IsMark(); ok {
+					var k int
+					if _, err := fmt.Sscanf(mk, "op-%d-begin", &k); err == nil && strings.HasSuffix(mk, "-begin") {
+						cur = k
+					} else if strings.HasSuffix(mk, "-end") {
+						cur = -1
+					}
+					continue
+				}
+				if e.Tid == dry.MainTid && isCrashSyscall(e.Name) {
+					cnt[e.Name]++
+					ptOp[point{e.Name, cnt[e.Name]}] = cur
+				}
+			}
+		}
+		inReput := func(p point) bool {
+			k, ok := ptOp[p]
+			return ok && k >= 0 && reput[k]
+		}
 		// Crash points. Main-thread calls: ordinal pre+j addresses the j-th call of the workload (the kill goes to the
 		// first thread reaching that ordinal; the hit is measured). Calls made by other threads (fdatasync/close of
 		// the batch sync timer) are reachable only through ordinals no main-thread call takes first; instances that
@@ -346,10 +499,19 @@ func TestC12CrashPoints(t *testing.T) {
 				j := int(x % uint64(i+1))
 				pts[i], pts[j] = pts[j], pts[i]
 			}
+			// crash points inside a re-put of an acknowledged object first: a time-budget cut must not drop them
+			sort.SliceStable(pts, func(a, b int) bool { return inReput(pts[a]) && !inReput(pts[b]) })
+			nReput := 0
+			for _, p := range pts {
+				if inReput(p) {
+					nReput++
+				}
+			}
 			outs := make([]outcome, 0, len(pts))
 			nw := workers()
 			for at := 0; at < len(pts); at += nw {
-				if at >= 2*nw && budget.Exceeded() {
+				// the re-put crash points (a few dozen at most) are always run; the budget cuts only the rest
+				if at >= 2*nw && at >= nReput && budget.Exceeded() {
 					skipped += len(pts) - at
 					break
 				}
@@ -423,6 +585,9 @@ func TestC12CrashPoints(t *testing.T) {
 			}
 			if o.inWindow {
 				labels = append(labels, "kill-between-first-write-and-last-link")
+			}
+			if o.hit != nil && o.killOp >= 0 && reput[o.killOp] {
+				labels = append(labels, "reput&kill", "reput&kill-on-"+o.pt.syscall)
 			}
 			if w.spec.Generic {
 				labels = append(labels, "writer-generic")
@@ -523,6 +688,16 @@ func crashRunOnce(w *workload, objs []*fsobj.Obj, pt point, instPos map[instance
 		}
 		in := instance{pt.syscall, ord}
 		o.hit = &in
+		o.killOp = -1
+		for i := kp - 1; i > start; i-- {
+			if mk, ok := res.Events[i].IsMark(); ok {
+				var k int
+				if _, err := fmt.Sscanf(mk, "op-%d-begin", &k); err == nil && strings.HasSuffix(mk, "-begin") {
+					o.killOp = k
+				}
+				break
+			}
+		}
 		e := res.Events[kp]
 		o.hitDesc = fmt.Sprintf("%s #%d after start: %s(%s)", in.syscall, in.ord, e.Name, e.Args)
 		if pos, ok := instPos[in]; ok && firstWrite >= 0 && pos > firstWrite && pos <= lastLink {
